@@ -16,6 +16,7 @@ signal.signal(signal.SIGTERM, lambda *a: sys.exit(143))  # so that 'finally' sti
 ROOT = os.path.dirname(os.path.dirname(os.path.abspath(__file__)))
 SEEDED = os.path.join(ROOT, "seeded")
 REPO = "/repo"
+SCRATCH = os.environ.get("SEEDED_SCRATCH")   # a scratch worktree of /repo's HEAD: patches are applied there and /repo is left alone
 
 
 def sh(cmd, **kw):
@@ -49,12 +50,19 @@ def run_one(sid, tier, props=None):
     d = os.path.join(SEEDED, sid)
     meta = json.load(open(os.path.join(d, "meta.json")))
     patch = os.path.join(d, meta.get("patch", "patch.diff"))
-    if not repo_clean():
+    target = SCRATCH or REPO
+    if SCRATCH:
+        head = sh(["git", "-C", REPO, "rev-parse", "HEAD"]).stdout.strip()
+        if not os.path.isdir(SCRATCH):
+            sh(["git", "-C", REPO, "worktree", "add", "-f", "--detach", SCRATCH, head])
+        sh(["git", "-C", SCRATCH, "checkout", "-q", "--", "."])
+        sh(["git", "-C", SCRATCH, "checkout", "-q", "--detach", head])
+    elif not repo_clean():
         print("refusing: /repo has uncommitted changes to tracked files")
         return None
     results = {}
     try:
-        r = sh(["git", "-C", REPO, "apply", "--whitespace=nowarn", patch])
+        r = sh(["git", "-C", target, "apply", "--whitespace=nowarn", patch])
         if r.returncode != 0:
             print(sid, "patch does not apply:", r.stdout[-500:])
             return None
@@ -63,6 +71,10 @@ def run_one(sid, tier, props=None):
             env = dict(os.environ)
             env.setdefault("VERIF_BUDGET_S", "300")
             env["VERIF_EVIDENCE_DIR"] = os.path.join(ROOT, "work", "evidence-seeded")   # never touch the committed evidence
+            if SCRATCH:
+                env["VERIF_REPO"] = SCRATCH
+                env["VERIF_BUILD"] = os.path.join("work", "build-seeded")
+                env["VERIF_REPLAY_DIR"] = os.path.join(ROOT, "work", "replays-seeded")
             try:
                 c = sh([os.path.join(ROOT, "check"), prop, tier], env=env, cwd=ROOT, timeout=1500)
             except subprocess.TimeoutExpired:
@@ -76,9 +88,9 @@ def run_one(sid, tier, props=None):
                              "first": viol[0] if viol else "", "tail": c.stdout[-300:] if c.returncode == 2 else ""}
             print("%-12s %-4s %s exit=%d violations=%d %s (%.0fs)" % (sid, prop, tier, c.returncode, len(viol), ",".join(clauses)[:120], time.time() - t0))
     finally:
-        sh(["git", "-C", REPO, "checkout", "--", "."])
+        sh(["git", "-C", target, "checkout", "--", "."])
         # replay files produced against a mutated tree are not kept
-        rp = os.path.join(ROOT, "replays")
+        rp = os.path.join(ROOT, "work", "replays-seeded") if SCRATCH else os.path.join(ROOT, "replays")
         if os.path.isdir(rp):
             for f in os.listdir(rp):
                 if f.endswith(".plan"):
